@@ -581,6 +581,39 @@ int main(int argc, char** argv) {
             case_resample_exact(p, q, h, hkind, x, dflt, corr);
         }
     }
+    // ---- resample(): boundary probes
+    for (auto pq : ratios) {   // empty input: p'*ceil(0/q') = 0 samples
+        const int p = pq.first, q = pq.second;
+        const std::string js = jres("resample-empty", p, q, 0);
+        vh::set_current("C08:resample-crash", js);
+        out.n_oracle++;
+        try {
+            const arr_real y0 = resample(arr_real(), p, q);
+            const arr_real y1 = resample(arr_real(), p, q, arr(rand_symmetric(rng, 7)));
+            if (y0.size() != 0 || y1.size() != 0) out.fail("C08:resample-empty-input", js);
+        } catch (const std::exception&) { out.fail("C08:resample-empty-input", js); }
+        vh::clear_current();
+        if (std::gcd(p, q) == 1 && p <= 4 && q <= 4) out.corr("resample " + std::to_string(p) + " " + std::to_string(q) + " 3 " + vh::hx(1.0) + " " + vh::hx(2.0) + " " + vh::hx(1.0) + " 0", "0");
+        out.stat("resample_empty_probes");
+    }
+    if (a.thorough) {   // long input: nx * p exceeds 2^31 although every array length fits an int
+        const int len = 4869441 + rng.range(0, 2000);
+        arr_real x(len);
+        for (int i = 0; i < len; ++i) x[i] = std::sin(0.01 * i);
+        const std::string js = jres("resample-long", 441, 160, size_t(len));
+        vh::set_current("C08:resample-crash", js);
+        out.n_oracle++;
+        try {
+            const arr_real y = resample(x, 441, 160);
+            const long want = 441L * ((long(len) + 159) / 160);
+            bool ok = long(y.size()) == want;
+            // spot check of the tail against the slow sinusoid (aligned within one output sample: |dy| <= 0.01*160/441*1.01)
+            for (long i = want - 5000; ok && i < want - 4000; ++i) ok = std::fabs(y[int(i)] - std::sin(0.01 * double(i) * 160.0 / 441.0)) < 0.01;
+            if (!ok) out.fail("C08:resample-length-overflow", js);
+        } catch (const std::exception&) { out.fail("C08:resample-length-overflow", js); }
+        vh::clear_current();
+        out.stat("resample_long_probes");
+    }
     // ---- resample(): alignment and approximation of the default design on tones / sweeps
     for (int p = 1; p <= PQ; ++p) for (int q = 1; q <= PQ; ++q) if (std::gcd(p, q) == 1) case_resample_align(p, q);
     for (int i = 0; i < 5; ++i) case_resample_align(audio[i].first, audio[i].second);
